@@ -497,7 +497,7 @@ func errTerm(err error) string {
 // the case is judged like any other.
 const callSlack = 120
 
-const watchdog = 8 * time.Second
+const watchdog = 25 * time.Second
 
 // number of iterators abandoned by the watchdog so far; after maxStuck no further case is run
 // (atomic: the long cases are run by several goroutines)
